@@ -4,8 +4,37 @@ from .. import common as C
 from .. import h2, drv, faults
 
 
+def in_place_ops(o, order):
+    """Operations that modify a source file other than by renaming a finished file over it."""
+    import os
+    srcs = {os.path.join(o.proj, "src", rel) for rel in order}
+    out = []
+    for t in o.trace:
+        if t["k"] is None or not t.get("rest"):
+            continue
+        if t["op"] == "open" and any(x in t["rest"][0] for x in ("w", "trunc", "append")) and " ".join(t["rest"][1:]) in srcs:
+            out.append(t)
+        elif t["op"] in ("write", "truncate", "ftruncate") and " ".join(t["rest"][1:] if t["op"] == "write" else t["rest"]) in srcs:
+            out.append(t)
+        elif t["op"] == "unlink" and t["rest"][0] in srcs and t["ret"] == 0:
+            out.append(t)
+    return out
+
+
 def judge(s, o0, order, pl, o, state, ids):
     problems = []
+    inplace = in_place_ops(o, order)
+    if inplace:
+        # a source file is being rewritten in place: find the crash point that shows it
+        t = inplace[0]
+        plan2 = pl.text + ",%d=killa" % t["k"]
+        o2 = h2.run_impl(s, plan=plan2)
+        broken = [rel for rel in order if drv.final_bytes(o2, rel) != drv.orig_bytes(s, rel)
+                  and drv.final_bytes(o2, rel) != drv.final_bytes(o0, rel)]
+        problems.append("source file modified in place (%s %s at operation %d under plan %s)%s" % (
+            t["op"], " ".join(t["rest"])[-40:], t["k"], pl.text,
+            "; killing the process right after that operation (plan %s) leaves %r neither original nor complete: %r" % (
+                plan2, broken, (drv.final_bytes(o2, broken[0]) or b"")[:80]) if broken else ""))
     for rel, st in state.items():
         if st not in ("orig", "complete"):
             problems.append("source file %s is %s: neither its original nor its complete updated content (%r)" % (
